@@ -1,19 +1,41 @@
 """C04 — run loop stops exactly on its limits; aggregates are the fold of the runs
    (qecsim.app.run / run_ftp against Model/RunLoop.lean)"""
 import json
+import os
 from fractions import Fraction
+from math import lcm
 
 import numpy as np
 
 from qv import gens
 from qv.core import ilist, rat
 
-RULE = ('scripted outcome histories (length<=40) through the real app.run / app.run_ftp with a scripted decoder '
-        '(DecodeResult with chosen success / logical_commutations / custom_values) and a scripted error model '
-        '(chosen weights); all (max_runs, max_failures) in {None,1..6}^2 sampled; arrays present / absent / '
-        'length-changing at a chosen run; ideal and ftp (T<=4); n in {5,7,13,25}. Compared: number of decoder calls, '
-        'every aggregate field (floats bit-exact via the documented float expressions on the model\'s integers), '
-        'value types and JSON serialisability. non-trivial = history with at least one failure or a mismatch')
+RULE = ('scripted outcome histories (length<=40, plus long chains of 300/600 runs) through the real app.run / '
+        'app.run_ftp with a scripted decoder (DecodeResult with chosen success / logical_commutations / custom_values) '
+        'and a scripted error model (chosen weights); all (max_runs, max_failures) in {None,1..6}^2 sampled; arrays '
+        'present / absent / zero-length / length-changing at a chosen run; ideal and ftp (T<=4); n in {5,7,13,25}. '
+        'Value TYPES are an input class: the per-run vectors are numpy arrays of dtype bool / (u)int8..64 / '
+        'float16/32/64, uniform, mixed across the runs of one history, narrow-first / wide-first / switching at a '
+        'chosen run, with values up to the extremes of the narrow dtypes (the fold is over mathematical integers / '
+        'dyadic rationals: the model receives the values as exact integers over a per-history common denominator; float '
+        'values are dyadic and chosen so that every partial sum is exact in the numpy-promoted dtype of its prefix); '
+        'the success flag is a python bool / numpy.bool_ / python int / numpy int (0/1 and other truthy values), '
+        'uniform or mixed. Compared: number of decoder calls, every aggregate field (floats bit-exact via the '
+        'documented float expressions on the model\'s integers; array totals as exact rationals), value types (every '
+        'value int / float / str / tuple / None, tuple elements int / float / None) and a json.dumps/loads round trip, '
+        'on every history. non-trivial = history with at least one failure or a mismatch')
+
+K_WRAP = 'array-sum-wraps-in-narrow-integer-dtype'
+K_BOOL = 'array-sum-of-bool-vectors-is-logical-or'
+
+INT_RANGE = {dt: (int(np.iinfo(dt).min), int(np.iinfo(dt).max))
+             for dt in ('int8', 'int16', 'int32', 'int64', 'uint8', 'uint16', 'uint32', 'uint64')}
+CAP = 2 ** 40  # magnitudes of the wide integer dtypes stay below this (exact also after promotion to float64)
+POOL = ['int64', 'int32', 'int16', 'int8', 'uint8', 'uint16', 'uint32', 'uint64', 'bool', 'float64', 'float32',
+        'float16']
+NARROW = ['int8', 'uint8', 'int16', 'uint16', 'int32', 'bool', 'float16', 'float32']
+WIDE = ['int64', 'float64', 'int64', 'float64', 'int32', 'int16', 'float32', 'uint64']
+FLAG_KINDS = ['bool', 'np.bool_', 'int', 'np.int64', 'np.int8', 'np.uint8', 'truthy-int', 'truthy-np.int64']
 
 
 class Exhausted(Exception):
@@ -49,6 +71,8 @@ def make_env():
         label = 'script-em'
 
     class ScriptDec(Decoder, DecoderFTP):
+        """outs: (success flag object, logical_commutations array or None, custom_values array or None)"""
+
         def __init__(self, outs):
             self.outs = outs; self.i = 0
 
@@ -56,8 +80,7 @@ def make_env():
             if self.i >= len(self.outs):
                 raise Exhausted()
             su, lc, cv = self.outs[self.i]; self.i += 1
-            return DecodeResult(success=su, logical_commutations=None if lc is None else np.array(lc, dtype=int),
-                                custom_values=None if cv is None else np.array(cv, dtype=int))
+            return DecodeResult(success=su, logical_commutations=lc, custom_values=cv)
 
         def decode(self, code, syndrome, **kw):
             return self._next()
@@ -73,16 +96,118 @@ def fhex(x):
     return float(x).hex()
 
 
+# ---------------------------------------------------------------------------------------- value / dtype classes
+
+def gen_value(rng, dt, binary):
+    """an exact value (int or Fraction) representable in dtype dt"""
+    if binary or dt == 'bool':
+        return rng.randint(0, 1)
+    if dt in INT_RANGE:
+        lo, hi = INT_RANGE[dt]
+        lo, hi = max(lo, -CAP), min(hi, CAP)
+        c = rng.random()
+        if c < 0.55:
+            return max(lo, min(hi, rng.randint(-3, 7)))
+        if c < 0.85:
+            return rng.choice([hi, hi - 1, lo, lo + 1, hi // 2 + 1, (hi // 4) * 3])
+        return rng.randint(lo, hi)
+    if dt == 'float16':
+        return Fraction(rng.randint(-8, 8), 4)
+    if dt == 'float32':
+        return Fraction(rng.randint(-64, 64), 8)
+    c = rng.random()  # float64
+    if c < 0.4:
+        return Fraction(rng.randint(-24, 56), 8)
+    if c < 0.8:
+        return rng.randint(-8, 8) + Fraction(rng.randrange(2 ** 40), 2 ** 40)  # needs > 24 bits of mantissa
+    return Fraction(rng.randint(-3, 7))
+
+
+def gen_dtypes(rng, length):
+    mode = rng.choice(['default'] * 6 + ['uniform', 'uniform', 'mixed', 'mixed', 'narrow-first', 'wide-first', 'switch'])
+    if mode == 'default':
+        return mode, ['int64'] * length
+    if mode == 'uniform':
+        return mode, [rng.choice(POOL)] * length
+    if mode == 'mixed':
+        sub = rng.sample(POOL, rng.randint(2, 4))
+        return mode, [rng.choice(sub) for _ in range(length)]
+    if mode == 'switch':
+        a, b = rng.sample(POOL, 2)
+    else:
+        a = rng.choice(NARROW); b = rng.choice([w for w in WIDE if w != a])
+        if mode == 'wide-first':
+            a, b = b, a
+    k = rng.choice([1, 1, max(1, length - 1), rng.randint(1, max(1, length - 1))])
+    return mode, [a] * min(k, length) + [b] * max(0, length - k)
+
+
+def representable(x, dt):
+    """exact value x is representable in numpy dtype dt"""
+    if dt.kind == 'b':
+        return x in (0, 1)
+    if dt.kind in 'iu':
+        lo, hi = INT_RANGE[dt.name]
+        return x == int(x) and lo <= x <= hi
+    with np.errstate(all='ignore'):
+        f = float(dt.type(float(x)))
+    return f == f and f not in (float('inf'), float('-inf')) and Fraction(f) == x
+
+
+def promote_guard(vecs, dts):
+    """simulate the accumulation `zeros_like(v1, dtype>=int64) + v1 + v2 + ...` in numpy's promoted dtype over exact values:
+    returns None when every partial sum is representable in the promoted dtype of its prefix, else the kind of the
+    first loss ('int-wrap' | 'bool-or' | 'float-round'); 'bool-type' when everything is exact but the total is a
+    vector of numpy bools"""
+    if not vecs or not len(vecs[0]):
+        return None
+    # the accumulator starts as zeros_like(v1, dtype=result_type(v1, int64)) (repo commit e73051e)
+    P = np.result_type(np.dtype(dts[0]), np.int64); S = [0] * len(vecs[0])
+    for v, d in zip(vecs, dts):
+        P = np.result_type(P, np.dtype(d))
+        S = [a + b for a, b in zip(S, v)]
+        if not all(representable(s, P) for s in S):
+            return {'b': 'bool-or', 'i': 'int-wrap', 'u': 'int-wrap'}.get(P.kind, 'float-round')
+    return 'bool-type' if P.kind == 'b' else None
+
+
+def gen_vectors(rng, length, vlen, binary):
+    """per-run exact vectors + dtypes; float rounding in the promoted accumulator is excluded by construction"""
+    if vlen is None:
+        return 'absent', [None] * length, ['int64'] * length
+    for _ in range(6):
+        mode, dts = gen_dtypes(rng, length)
+        vecs = [[gen_value(rng, dt, binary) for _ in range(vlen)] for dt in dts]
+        if promote_guard(vecs, dts) != 'float-round':
+            return mode, vecs, dts
+    dts = ['int64'] * length
+    return 'default', [[gen_value(rng, 'int64', binary) for _ in range(vlen)] for _ in dts], dts
+
+
+def mk_flag(rng, kind, b):
+    if kind == 'bool': return bool(b)
+    if kind == 'np.bool_': return np.bool_(b)
+    if kind == 'int': return int(b)
+    if kind == 'np.int64': return np.int64(b)
+    if kind == 'np.int8': return np.int8(b)
+    if kind == 'np.uint8': return np.uint8(b)
+    t = rng.choice([1, 2, 3, -1, 7]) if b else 0
+    return t if kind == 'truthy-int' else np.int64(t)
+
+
 def gen_history(rng, length):
     pf = rng.choice([0.0, 0.1, 0.3, 0.6, 1.0])
     lcl = rng.choice([None, 0, 1, 2, 2, 4])
-    cvl = rng.choice([None, None, 1, 3])
-    outs = []
-    for _ in range(length):
+    cvl = rng.choice([None, None, 0, 1, 3])
+    lcmode, lcs, lcdt = gen_vectors(rng, length, lcl, True)
+    cvmode, cvs, cvdt = gen_vectors(rng, length, cvl, False)
+    fplan = rng.choice(['bool'] * 5 + FLAG_KINDS[1:] + ['mixed'])
+    outs, fkinds = [], []
+    for i in range(length):
         su = rng.random() >= pf
-        lc = None if lcl is None else [rng.randint(0, 1) for _ in range(lcl)]
-        cv = None if cvl is None else [rng.randint(-3, 7) for _ in range(cvl)]
-        outs.append([su, lc, cv, rng.choice([0, 0, 1, 2, 3, 5])])
+        fk = rng.choice(FLAG_KINDS) if fplan == 'mixed' else fplan
+        fkinds.append(fk)
+        outs.append([su, lcs[i], cvs[i], rng.choice([0, 0, 1, 2, 3, 5]), mk_flag(rng, fk, su)])
     kind = 'consistent'
     if length >= 2 and rng.random() < 0.25:  # plant an inconsistency at a chosen run
         i = rng.randrange(0, length)
@@ -93,7 +218,62 @@ def gen_history(rng, length):
         else:
             outs[i][which] = rng.choice([None, cur + [0], cur[:-1] if cur else [1]])
         kind = 'mismatch'
-    return outs, kind
+    return outs, kind, {'lcdt': lcdt, 'cvdt': cvdt, 'flags': fkinds, 'lcmode': lcmode, 'cvmode': cvmode,
+                        'flagplan': fplan}
+
+
+def to_array(v, dt):
+    if v is None:
+        return None
+    if np.dtype(dt).kind == 'f':
+        return np.array([float(x) for x in v], dtype=dt)
+    return np.array([int(x) for x in v], dtype=dt)
+
+
+def qs(x):
+    """exact text of one total: integer or p/q"""
+    if isinstance(x, (bool, int, np.integer, np.bool_)):
+        return str(int(x))
+    if isinstance(x, (float, np.floating)):
+        x = float(x)
+        if x != x or x in (float('inf'), float('-inf')):
+            return repr(x)
+        x = Fraction(x)
+    if isinstance(x, Fraction):
+        return str(x.numerator) if x.denominator == 1 else '{}/{}'.format(x.numerator, x.denominator)
+    return 'obj:' + type(x).__name__
+
+
+def qlist(v):
+    if v is None:
+        return 'N'
+    try:
+        v = list(v)
+    except TypeError:
+        return 'obj:' + type(v).__name__
+    return ','.join(qs(x) for x in v) if v else '_'
+
+
+def denominator(outs, col):
+    d = 1
+    for o in outs:
+        for x in (o[col] or []):
+            d = lcm(d, Fraction(x).denominator)
+    return d
+
+
+def describe(outs, info, upto=None):
+    """human-readable history for counterexample reports"""
+    rows = []
+    for i, o in enumerate(outs[:upto]):
+        f = lambda v, dt: 'None' if v is None else '{}{}'.format(dt, [float(x) if isinstance(x, Fraction) else x  # noqa
+                                                                        for x in v])
+        rows.append('run {}: success={}({}) logical_commutations={} custom_values={} error_weight={}'.format(
+            i + 1, info['flags'][i], o[4] if not isinstance(o[4], (np.generic,)) else o[4].item(),
+            f(o[1], info['lcdt'][i]), f(o[2], info['cvdt'][i]), o[3]))
+    if len(rows) > 14:
+        rows = rows[:8] + ['… {} more runs …'.format(len(rows) - 12)] + rows[-4:]
+    return rows
 
 
 def run(ctx):
@@ -101,8 +281,10 @@ def run(ctx):
     from qecsim.error import QecsimError
     ScriptEM, ScriptDec = make_env()
     rng = ctx.rng
+    if os.environ.get('QV_EXTRA_KNOWN'):  # development aid: candidate known_findings entries under evaluation
+        ctx.known = list(ctx.known) + json.load(open(os.environ['QV_EXTRA_KNOWN'])).get('findings', [])
     PLAIN = (int, float, str, tuple, type(None))
-    for it in range(ctx.scale(2500, 60000)):
+    for it in range(ctx.scale(4000, 80000)):
         n = rng.choice([5, 7, 13, 25])
         k = 1
         S, Lx, Lz = gens.trivial_code(n, k)
@@ -110,34 +292,71 @@ def run(ctx):
         mode = rng.choice(['ideal', 'ftp'])
         T = 1 if mode == 'ideal' else rng.choice([1, 2, 3, 4])
         length = rng.choice([1, 2, 3, 5, 8, 13, 25, 40])
-        outs, kind = gen_history(rng, length)
-        mr = rng.choice([None, None, 1, 2, 3, 4, 5, 6, 10, 40])
+        if rng.random() < 0.012:
+            length = rng.choice([300, 600])  # long chains: narrow accumulators run out of range
+        outs, kind, info = gen_history(rng, length)
+        mr = rng.choice([None, None, 1, 2, 3, 4, 5, 6, 10, 40, length])
         mf = rng.choice([None, None, 1, 2, 3, 4, 5, 6])
         em = ScriptEM(n, T, [o[3] for o in outs], rng)
-        dec = ScriptDec([(o[0], o[1], o[2]) for o in outs])
+        dec = ScriptDec([(o[4], to_array(o[1], info['lcdt'][i]), to_array(o[2], info['cvdt'][i]))
+                         for i, o in enumerate(outs)])
         p = rng.choice([0.0, 0.1, 0.5])
         q = rng.choice([None, 0.0, 0.2]) if mode == 'ftp' else None
+        Dlc, Dcv = denominator(outs, 1), denominator(outs, 2)
+        meta = dict(info, mode=mode, kind=kind, Dlc=Dlc, Dcv=Dcv, flagvals=[int(o[4]) for o in outs])
         try:
-            if mode == 'ideal':
-                r = app.run(code, em, dec, p, max_runs=mr, max_failures=mf, random_seed=rng.randrange(10 ** 6))
-            else:
-                r = app.run_ftp(code, T, em, dec, p, q, max_runs=mr, max_failures=mf,
-                                random_seed=rng.randrange(10 ** 6))
-            f = lambda v: 'N' if v is None else ilist(v)  # noqa: E731
+            with np.errstate(all='ignore'):
+                if mode == 'ideal':
+                    r = app.run(code, em, dec, p, max_runs=mr, max_failures=mf, random_seed=rng.randrange(10 ** 6))
+                else:
+                    r = app.run_ftp(code, T, em, dec, p, q, max_runs=mr, max_failures=mf,
+                                    random_seed=rng.randrange(10 ** 6))
+            shown = {'n_logical_commutations': r['n_logical_commutations'], 'custom_totals': r['custom_totals']}
+            # histories on which numpy's promoted accumulator itself cannot hold a partial sum (uniformly narrow integer
+            # dtype running out of range, bool vectors): the total is compared with the exact sum by a monitor and
+            # reported under a stable key; the remaining fields stay under the correspondence
+            try:
+                N = min(int(r['n_run']), len(outs))
+            except Exception:
+                N = 0
+            for key, col, dk in (('n_logical_commutations', 1, 'lcdt'), ('custom_totals', 2, 'cvdt')):
+                pre = outs[:N]
+                if not pre or any(o[col] is None or len(o[col]) != len(pre[0][col]) for o in pre):
+                    continue
+                g = promote_guard([o[col] for o in pre], info[dk][:N])
+                if g in ('int-wrap', 'bool-or', 'bool-type'):
+                    exact = tuple(sum(o[col][i] for o in pre) for i in range(len(pre[0][col])))
+                    ctx.count('accumulator-class', g)
+                    got = shown[key]
+                    if qlist(got) != qlist(exact) or any(type(x) not in (int, float) for x in (got or ())):
+                        ctx.monitor_fail(
+                            '{} is not the element-wise sum of the per-run vectors ({}): got {!r}, exact sum {!r}'.format(
+                                key, 'the accumulator keeps the narrow integer dtype of the vectors and wraps around'
+                                if g == 'int-wrap' else 'bool vectors are OR-ed / returned as bools, not counted',
+                                got, exact),
+                            {'n': n, 'time_steps': T, 'mode': mode, 'max_runs': mr, 'max_failures': mf,
+                             'history': describe(outs, info, N)},
+                            key=K_WRAP if g == 'int-wrap' else K_BOOL)
+                        shown[key] = tuple(Fraction(x) for x in exact)  # exact; excluded from the type monitor
             impl = 'ok {} {} {} {} {} {} {} {} {}'.format(
-                r['n_run'], r['n_success'], r['n_fail'], f(r['n_logical_commutations']), f(r['custom_totals']),
-                r['error_weight_total'], fhex(r['error_weight_pvar']), fhex(r['logical_failure_rate']),
-                fhex(r['physical_error_rate']))
+                r['n_run'], r['n_success'], r['n_fail'], qlist(shown['n_logical_commutations']),
+                qlist(shown['custom_totals']), r['error_weight_total'], fhex(r['error_weight_pvar']),
+                fhex(r['logical_failure_rate']), fhex(r['physical_error_rate']))
             impl += ' calls={}'.format(dec.i)
-            # plain JSON-serialisable scalars / tuples
-            bad = [kk for kk, v in r.items() if type(v) not in PLAIN or (
+            # plain JSON-serialisable scalars / tuples (type monitor, every history)
+            rr = dict(r, **{kk: (() if v and type(v[0]) is Fraction else v) for kk, v in shown.items()})
+            bad = [kk for kk, v in rr.items() if type(v) not in PLAIN or (
                 isinstance(v, tuple) and any(type(x) not in (int, float, type(None)) for x in v))]
             try:
-                json.dumps(r)
-            except TypeError:
+                back = json.loads(json.dumps(r))
+                if back != {kk: (list(v) if isinstance(v, tuple) else v) for kk, v in r.items()}:
+                    bad.append('json.roundtrip')
+            except (TypeError, ValueError):
                 bad.append('json.dumps')
             impl += ' types=' + ('ok' if not bad else 'bad:' + ','.join(
-                '{}:{}'.format(b, type(r[b]).__name__ if b in r else '') for b in bad))
+                '{}:{}'.format(b, (type(rr[b]).__name__ + ('[' + '/'.join(sorted({type(x).__name__ for x in rr[b]})) + ']'
+                                                           if isinstance(rr[b], tuple) else '')) if b in rr else '')
+                for b in bad))
             qeff = 0.0 if mode == 'ideal' else ((0.0 if T == 1 else p) if q is None else q)
             idok = (r['code'] == code.label and r['n_k_d'] == code.n_k_d and r['time_steps'] == T and
                     r['error_model'] == em.label and r['decoder'] == dec.label and r['error_probability'] == p and
@@ -148,37 +367,61 @@ def run(ctx):
             impl = 'QecsimError:{}:{}'.format('lc' if 'logical_commutations' in msg else 'cv', dec.i)
         except Exhausted:
             impl = 'needMore'
-        wire = '|'.join('{}:{}:{}:{}'.format(o[3], int(o[0]), 'N' if o[1] is None else ilist(o[1]),
-                                              'N' if o[2] is None else ilist(o[2])) for o in outs)
+        except Exception as ex:  # any other exception out of the run loop
+            impl = 'raised:{}:{}'.format(type(ex).__name__, '_'.join(str(ex).split())[:160])
+        sc = lambda v, D: 'N' if v is None else ilist([int(Fraction(x) * D) for x in v])  # noqa: E731
+        wire = '|'.join('{}:{}:{}:{}'.format(o[3], int(o[0]), sc(o[1], Dlc), sc(o[2], Dcv)) for o in outs)
         line = 'c04 run {} {} {} {} {}'.format(n, T, 'N' if mr is None else mr, 'N' if mf is None else mf, wire)
 
-        def post(reply, n=n, T=T):
+        def post(reply, n=n, T=T, Dlc=Dlc, Dcv=Dcv):
             t = reply.split()
             if t[0] != 'ok':
                 return reply
             nrun, nsucc, nfail, lc, cv, tot, pvar, _lfr, _per = t[1:10]
             nrun_i, nfail_i, tot_i = int(nrun), int(nfail), int(tot)
             a, b = pvar.split('/')
+            un = lambda s, D: s if s in ('N', '_') else ','.join(qs(Fraction(int(x), D)) for x in s.split(','))  # noqa
             return 'ok {} {} {} {} {} {} {} {} {} calls={} types=ok id=ok'.format(
-                nrun, nsucc, nfail, lc, cv, tot, fhex(float(Fraction(int(a), int(b)))), fhex(nfail_i / nrun_i),
-                fhex(tot_i / n / T / nrun_i), nrun)
+                nrun, nsucc, nfail, un(lc, Dlc), un(cv, Dcv), tot, fhex(float(Fraction(int(a), int(b)))),
+                fhex(nfail_i / nrun_i), fhex(tot_i / n / T / nrun_i), nrun)
         nt = any(not o[0] for o in outs) or kind == 'mismatch'
-        ctx.case(line, impl, nontrivial=nt, post=post, meta={'mode': mode, 'kind': kind})
+        ctx.case(line, impl, nontrivial=nt, post=post, meta=meta)
         ctx.count('mode', mode); ctx.count('limits', '{}/{}'.format(mr, mf)); ctx.count('kind', kind)
         ctx.count('outcome', impl.split()[0].split(':')[0]); ctx.count('len', length)
+        ctx.count('lc-dtypes', info['lcmode']); ctx.count('cv-dtypes', info['cvmode'])
+        ctx.count('success-flag', info['flagplan'])
+        for dk in ('lcdt', 'cvdt'):
+            ctx.count('first-dtype', info[dk][0])
     return ctx.finish(RULE, search=search)
 
 
 def search(m):
-    """evaluate the property directly: recompute stopping index and fold from the history (pure Python spec)"""
+    """evaluate the property directly: recompute stopping index and fold from the history (pure Python spec over exact
+    integers / rationals)"""
     toks = m['op'].split()
+    meta = m.get('meta') or {}
+    Dlc, Dcv = int(meta.get('Dlc', 1)), int(meta.get('Dcv', 1))
     n, T = int(toks[2]), int(toks[3])
     mr = None if toks[4] == 'N' else int(toks[4]); mf = None if toks[5] == 'N' else int(toks[5])
     outs = []
     for o in toks[6].split('|'):
         ew, su, lc, cv = o.split(':')
-        P = lambda s: None if s == 'N' else ([] if s == '_' else [int(x) for x in s.split(',')])  # noqa: E731
-        outs.append((int(ew), su == '1', P(lc), P(cv)))
+        P = lambda s, D: None if s == 'N' else ([] if s == '_' else [Fraction(int(x), D) for x in s.split(',')])  # noqa
+        outs.append((int(ew), su == '1', P(lc, Dlc), P(cv, Dcv)))
+
+    def hist(upto):
+        if not meta.get('flags'):
+            return None
+        rows = []
+        for i, o in enumerate(outs[:upto]):
+            f = lambda v, dt: 'None' if v is None else '{}{}'.format(dt, [float(x) if x.denominator > 1 else int(x)  # noqa
+                                                                            for x in v])
+            rows.append('run {}: success={}({}) logical_commutations={} custom_values={} error_weight={}'.format(
+                i + 1, meta['flags'][i], (meta.get('flagvals') or {i: o[1]})[i], f(o[2], meta['lcdt'][i]),
+                f(o[3], meta['cvdt'][i]), o[0]))
+        if len(rows) > 14:
+            rows = rows[:8] + ['… {} more runs …'.format(len(rows) - 12)] + rows[-4:]
+        return rows
     if mr is None and mf is None:
         mr = 1
     N = None; fails = 0
@@ -194,20 +437,23 @@ def search(m):
     if N is not None and (first_bad is None or first_bad >= N):
         if impl[0] != 'ok':
             return {'what': 'run did not return although a limit is reached with consistent arrays', 'op': m['op'],
-                    'impl': m['impl'], 'expected_runs': N}
+                    'impl': m['impl'], 'expected_runs': N, 'history': hist(N)}
         run_ = outs[:N]
         exp = {'n_run': N, 'n_success': sum(o[1] for o in run_), 'n_fail': sum(not o[1] for o in run_),
                'total': sum(o[0] for o in run_)}
-        got = {'n_run': int(impl[1]), 'n_success': int(impl[2]), 'n_fail': int(impl[3]), 'total': int(impl[6])}
+        try:
+            got = {'n_run': int(impl[1]), 'n_success': int(impl[2]), 'n_fail': int(impl[3]), 'total': int(impl[6])}
+        except ValueError:
+            got = {'n_run': impl[1], 'n_success': impl[2], 'n_fail': impl[3], 'total': impl[6]}
         if got != exp:
             return {'what': 'stopping index / counts differ from the fold of the history', 'op': m['op'],
-                    'got': got, 'expected': exp}
-        for idx, col in ((4, 2), (5, 3)):
+                    'got': got, 'expected': exp, 'history': hist(N)}
+        for idx, col, name in ((4, 2, 'n_logical_commutations'), (5, 3, 'custom_totals')):
             e = None if run_[0][col] is None else [sum(o[col][i] for o in run_) for i in range(len(run_[0][col]))]
-            e = 'N' if e is None else (','.join(map(str, e)) if e else '_')
+            e = qlist(e)
             if impl[idx] != e:
-                return {'what': 'array total is not the element-wise sum', 'op': m['op'], 'got': impl[idx],
-                        'expected': e}
+                return {'what': name + ' is not the element-wise sum of the per-run vectors', 'op': m['op'],
+                        'got': impl[idx], 'expected': e, 'history': hist(N)}
         ws = [o[0] for o in run_]
         mu = Fraction(sum(ws), N)
         pv = float(sum((w - mu) ** 2 for w in ws) / N)
@@ -219,7 +465,7 @@ def search(m):
         for fl in impl[10:]:
             if fl.startswith('types=') and fl != 'types=ok':
                 return {'what': 'aggregate contains values that are not plain JSON-serialisable scalars/tuples',
-                        'op': m['op'], 'detail': fl}
+                        'op': m['op'], 'detail': fl, 'history': hist(N)}
             if fl.startswith('id=') and fl != 'id=ok':
                 return {'what': 'identification fields do not echo the inputs', 'op': m['op']}
             if fl.startswith('calls=') and int(fl[6:]) != N:
@@ -228,14 +474,21 @@ def search(m):
     elif first_bad is not None and (N is None or first_bad < N):
         if impl[0] == 'ok':
             return {'what': 'inconsistent per-run arrays were summed instead of raising', 'op': m['op'],
-                    'impl': m['impl'], 'first_inconsistent_run': first_bad + 1}
+                    'impl': m['impl'], 'first_inconsistent_run': first_bad + 1, 'history': hist(first_bad + 1)}
+        if impl[0].startswith('raised:'):
+            return {'what': 'inconsistent per-run arrays did not raise the documented QecsimError', 'op': m['op'],
+                    'impl': m['impl'], 'first_inconsistent_run': first_bad + 1, 'history': hist(first_bad + 1)}
+    elif impl[0].startswith('raised:'):
+        return {'what': 'run loop raised an undocumented exception', 'op': m['op'], 'impl': m['impl']}
     return None
 
 
 def replay(ctx, path):
-    body = json.load(open(path)); bad = 0
+    body = json.load(open(path)); bad = 0; monitor = False
     for v in body.get('violations', []):
         mm = v.get('first_mismatch')
         if mm:
             r = search(mm); print('replay', mm['op'][:160], '->', r); bad += bool(r)
-    return 1 if bad else 0
+        elif v.get('via') == 'monitor':
+            monitor = True  # monitor findings are re-evaluated by the full deterministic re-run
+    return 1 if bad else (None if monitor else 0)
